@@ -62,7 +62,7 @@ def check_number(x, acc, api, script=None, via_script=False):
             return
     t = first
     back = lib['numberParseFloat']([t], None)
-    if back is None or not isinstance(back, (int, float)) or back != x or (x == 0 and math.copysign(1, back) != math.copysign(1, x) and False):
+    if back is None or not isinstance(back, (int, float)) or back != x or (x == 0 and isinstance(x, float) and math.copysign(1, back) != math.copysign(1, x)):
         acc.violation('round-trip', f'{x!r} -> {t!r} -> {back!r}', case)
         return
     if _BAD_FRACTION.search(t):
